@@ -269,6 +269,9 @@ def conditions(tier):
                                      encodes=ENC, timeout=600))
     out.append(Condition("read-refresh", make_condition(read_refresh(), 1, 0, 0),
                          about="plain Read handler refreshes the value before it is returned / published", encodes=ENC, timeout=300))
+    out.append(Condition("second-instance/coroutine-handlers", make_condition(scenario((1, 1, 1, 1, 0), "text", "client", True), 2, 0, 4),
+                         about="two instances of one driver class, plain AND coroutine handlers: only the addressed instance's handlers run",
+                         encodes=ENC, timeout=600))
     out.append(Condition("second-instance/client", make_condition(scenario((1, 0, 1, 0, 0), "text", "client", True), 2, 0, 4),
                          about="two instances of one driver class on a router: a write to one must not invoke the other's handlers",
                          encodes=ENC, timeout=600))
